@@ -458,14 +458,14 @@ def known_a2(h, bs, ref='unset'):
     P = h.P
     out = []
     n = len(bs)
-    # (1) git keeps empty arguments ('' / "" / separators at either end); git-ai drops them
-    empty_tok = ref not in ('unset', None) and any(len(t) == 0 for t in ref)
-    out.append(('alias-empty-argument-dropped', z3.BoolVal(bool(empty_tok))))
+    # (1) git starts a new argument at every separator run, also at either end of the value (`a ` -> [a, ""],
+    #     ` a` -> ["", a]); git-ai drops those edge arguments.  (Empty QUOTED arguments were repaired.)
+    def gitspace(b):
+        return any_of([byte_eq(b, w) for w in (32, 9, 10, 13)])
+    edge = zbool(any_of([gitspace(bs[0]), gitspace(bs[-1])])) if n else z3.BoolVal(True)     # the empty value: git reports `empty alias`
+    out.append(('alias-separator-at-either-end', edge))
     # (2) git rejects a value that ends inside an escape; git-ai keeps the backslash
     out.append(('alias-trailing-backslash', zbool(byte_eq(bs[-1], 92)) if n else z3.BoolVal(False)))
-    # (3) git's isspace is SP TAB LF CR; git-ai splits on every Unicode White_Space (VT, FF, U+00A0 ...)
-    nonascii_ws = any(isinstance(b, int) and b >= 0x80 for b in bs)
-    out.append(('alias-non-git-whitespace', zbool(any_of([byte_eq(b, 11) for b in bs] + [nonascii_ws]))))
     return out
 
 
